@@ -7,6 +7,7 @@ from concurrent.futures import ThreadPoolExecutor
 muts = json.load(open(ST.MUTANTS))['mutants']
 props = sys.argv[1:] or sorted({m['prop'] for m in muts})
 jobs = [m for m in muts if m['prop'] in props]
+tally = {}
 with ThreadPoolExecutor(max_workers=12) as ex:
     for mut, verdict, out in ex.map(lambda m: ST._run_edit(m['prop'], '/repo', m), jobs):
         extra = ''
@@ -16,3 +17,6 @@ with ThreadPoolExecutor(max_workers=12) as ex:
             else:
                 extra = ' ' + str(out)
         print('%-5s %-40s %-20s%s' % (mut['prop'], mut['name'], verdict, extra))
+        tally[verdict] = tally.get(verdict, 0) + 1
+print('SUMMARY', len(jobs), 'edits:', tally)
+sys.exit(0 if set(tally) <= {'detected'} else 1)
